@@ -9,6 +9,7 @@ and multiplicities, values and errors are compared.  The property oracle (pure P
 model) states the property on the implementation's outputs."""
 import json
 import os
+import re
 
 from vt import core
 from vt.main import decide
@@ -20,6 +21,39 @@ COQ_OP = {"plain": "OpPlain", "bool": "OpBool", "star": "OpStar", "plus": "OpPlu
 TREE_OP = {"plain": "plain", "optional": "bool", "zeroormore": "star", "oneormore": "plus"}
 LIST_MULTS = ("0..*", "1..*")
 CORPUS = os.path.join(core.VERIF, "corpus", "C02")
+LINK_EVERY = 5      # every n-th generated grammar also goes through the link check against the shared PEG core
+# repetition separators: key -> (grammar text, the token sequences the separator can match; [] = it matches the empty string,
+# in which case Arpeggio puts no separator node into the parse tree)
+SEPS = {
+    "c": ("','", [[","]]),
+    "s": ("/;/", [[";"]]),
+    "oc": ("/,?/", [[","], []]),
+    "os": ("/;*/", [[], [";"], [";;"], [";", ";"]]),
+}
+
+
+def sep_key(x):
+    """Separator field of a body node: False/None = none, True = ',' (older corpus files), else a key of SEPS."""
+    if not x:
+        return None
+    return "c" if x is True else x
+
+
+def sep_text(x):
+    k = sep_key(x)
+    return "[%s]" % SEPS[k][0] if k else ""
+
+
+def sep_tokens(x, r):
+    k = sep_key(x)
+    return list(r.choice(SEPS[k][1])) if k else []
+
+
+def gen_sep(r, p):
+    if not r.chance(p):
+        return False
+    return r.weighted([("c", 2), ("s", 1), ("oc", 4), ("os", 3)])
+
 
 
 # ------------------------------------------------------------------ bodies
@@ -33,8 +67,8 @@ def gen_body(r, depth, nattr, allow_bool):
     if k == "asg":
         ops = [("plain", 12), ("star", 2), ("plus", 2)] + ([("bool", 3)] if allow_bool else [])
         op = r.weighted(ops)
-        typ = "KW" if op == "bool" else r.weighted([("INT", 3), ("STRING", 1)])
-        sep = op in ("star", "plus") and r.chance(0.3)
+        typ = "KW" if op == "bool" else r.weighted([("INT", 6), ("STRING", 2), ("SEPV", 1)])
+        sep = gen_sep(r, 0.5) if op in ("star", "plus") else False
         return ["asg", r.below(nattr), op, typ, sep]
     if k == "tok":
         return ["tok", "k%d" % r.below(3)]
@@ -52,7 +86,7 @@ def gen_body(r, depth, nattr, allow_bool):
     if nullable(x):
         # Arpeggio can loop forever on a repetition whose operand matches the empty string (not this property's concern)
         x = ["seq", [["tok", "k2"], x]]
-    return [k, x, r.chance(0.2)]
+    return [k, x, gen_sep(r, 0.3)]
 
 
 def nullable(b):
@@ -112,14 +146,14 @@ def p_elem(b):
     if k == "ref":
         return "Kw"
     if k == "asg":
-        rhs = {"INT": "INT", "STRING": "STRING", "KW": "'t%d'" % b[1]}[b[3]]
-        return "%s%s%s%s" % (ATTRS[b[1]], OPS[b[2]], rhs, "[',']" if b[4] else "")
+        rhs = {"INT": "INT", "STRING": "STRING", "SEPV": "sep", "KW": "'t%d'" % b[1]}[b[3]]
+        return "%s%s%s%s" % (ATTRS[b[1]], OPS[b[2]], rhs, sep_text(b[4]))
     if k in ("seq", "alt"):
         return "(" + p_inner(b) + ")"
     if k == "opt":
         return "(" + p_inner(b[1]) + ")?"
     if k in ("star", "plus"):
-        return "(" + p_inner(b[1]) + ")" + ("*" if k == "star" else "+") + ("[',']" if b[2] else "")
+        return "(" + p_inner(b[1]) + ")" + ("*" if k == "star" else "+") + sep_text(b[2])
     if k == "unord":
         if b[2] == "seq":
             return "(" + " ".join(p_elem(x) for x in b[1]) + ")#"
@@ -128,7 +162,8 @@ def p_elem(b):
 
 
 def grammar_text(b):
-    return "Model: %s;\nKw: 'kw';\n" % p_inner(b)
+    # `sep` is an ordinary match rule that happens to be called like the rule name given to separator matches
+    return "Model: %s;\nKw: 'kw';\nsep: /v[0-9]+/;\n" % p_inner(b)
 
 
 def coq_body(b):
@@ -194,6 +229,8 @@ def default_of(b, a, auto_init):
     if len(types) != 1:
         return "N"            # OBJECT: not a base type
     t = next(iter(types))
+    if t == "SEPV":
+        return "N"            # the attribute's type is the match rule `sep`, not a base type
     if auto_init:
         return {"INT": "i0", "STRING": "s", "BOOL": "F"}[t]
     return "F" if t == "BOOL" else "N"
@@ -218,6 +255,9 @@ class Vals:
                 return "0"
             self.n += 1
             return str(self.n)
+        if typ == "SEPV":
+            self.n += 1
+            return "v%d" % self.n
         if self.empty and self.r.chance(0.5):
             self.empty = False
             return "''"
@@ -239,8 +279,8 @@ def derive(b, r, v):
         n = r.range(1, 3) if b[2] == "plus" else r.range(0, 3)
         out = []
         for i in range(n):
-            if i and b[4]:
-                out.append(",")
+            if i:
+                out += sep_tokens(b[4], r)
             out.append(v.next(b[3]))
         return out
     if k == "seq":
@@ -253,8 +293,8 @@ def derive(b, r, v):
         n = r.range(1, 3) if k == "plus" else r.range(0, 2)
         out = []
         for i in range(n):
-            if i and b[2]:
-                out.append(",")
+            if i:
+                out += sep_tokens(b[2], r)
             out += derive(b[1], r, v)
         return out
     if k == "unord":
@@ -276,7 +316,7 @@ def mutate(toks, r):
         j = r.below(len(toks))
         toks[i], toks[j] = toks[j], toks[i]
     else:
-        toks.insert(i, r.choice(["0", "7", "''", "k0", "t0", "kw"]))
+        toks.insert(i, r.choice(["0", "7", "''", "k0", "t0", "kw", ",", ";"]))
     return toks
 
 
@@ -296,11 +336,11 @@ def gen_case(r, i, thorough):
     for k in range(2):
         rr = r.split("mu%d" % k)
         inputs.append(mutate(r.choice(inputs[:3]), rr))
-    return {"body": b, "grammar": grammar_text(b), "auto_init": r.chance(0.5), "inputs": [" ".join(t) for t in inputs]}
+    return {"body": b, "grammar": grammar_text(b), "auto_init": r.chance(0.5), "inputs": [" ".join(t) for t in inputs], "link": i % (3 if thorough else LINK_EVERY) == 0}
 
 
-def mk_case(body, inputs, auto_init=True):
-    return {"body": body, "grammar": grammar_text(body), "auto_init": auto_init, "inputs": inputs}
+def mk_case(body, inputs, auto_init=True, link=True):
+    return {"body": body, "grammar": grammar_text(body), "auto_init": auto_init, "inputs": inputs, "link": link}
 
 
 def A(a, op="plain", typ="INT", sep=False):
@@ -319,6 +359,12 @@ def builtin_corpus():
         mk_case(["seq", [A(0), ["star", A(1), True]]], ["1", "1 2 , 3"]),
         mk_case(["seq", [A(0, "star", "INT", True), A(0)]], ["1 , 2 3"]),
         mk_case(["seq", [["alt", [A(0, "bool", "KW"), ["tok", "k0"]]], A(1)]], ["t0 1", "k0 0"]),
+        # separators that can match the empty string leave no node in the parse tree
+        mk_case(["seq", [["tok", "k0"], A(0, "plus", "INT", "oc")]], ["k0 1, 2, 3, 4", "k0 1 2 3 4", "k0 1 2, 3 , 4 5", "k0 0 0, 7"]),
+        mk_case(["seq", [A(0), ["star", ["seq", [["tok", "k1"], A(0, "plus", "INT", "oc")]], False], ["opt", A(0, "star", "INT", "c")]]],
+                ["1 k1 2 3", "1 k1 2, 3 4 k1 5 6, 7 8, 9", "0 k1 0 0 0"]),
+        mk_case(["seq", [A(0, "star", "STRING", "os"), ["tok", "k2"]]], ["'p' 'q' ; 'r' ;; 's' 't' k2", "k2", "'' ; 'x' k2"]),
+        mk_case(["seq", [A(0, "plus", "INT", "c"), A(1, "plus", "INT", "s")]], ["1 , 2 , 3 4 ; 5 ; 6"]),
     ]
     if os.path.isdir(CORPUS):
         for f in sorted(os.listdir(CORPUS)):
@@ -339,12 +385,91 @@ Definition show_aval (v : aval) : string :=
   match v with AScalar x => show_sval x | AList l => "[" ++ sjoin "," (map show_sval l) ++ "]" end.
 Definition show_out (o : outcome) : string := match o with Ok v => show_aval v | MultipleAssignments => "MA" | Crash => "CRASH" end.
 (* one grammar: error code, then per attribute mult:maxcount, then per trace and attribute the builder outcome and the weight check *)
-Definition show_case (b : body) (ats : list (nat * sval)) (trs : list (list ev)) : string :=
+Definition show_case (b : body) (ats : list (nat * sval)) (nss : list (list anode)) : string :=
+  let trs := map (map (node_ev src_sep_mode)) nss in
   show_nat (grammar_error b) ++ "|" ++
   sjoin "," (map (fun ad => show_mult (infer b (fst ad)) ++ ":" ++ show_nat (maxcount (fst ad) b)) ats) ++ "|" ++
   sjoin ";" (map (fun t => sjoin "," (map (fun ad =>
      show_out (build (fst ad) (init_val (infer b (fst ad)) (snd ad)) t) ++ "/" ++
      show_bool (Nat.leb (cap2 (weight (fst ad) t)) (maxcount (fst ad) b))) ats)) trs)."""
+
+
+# ------------------------------------------------------------------ link to the shared PEG core
+LINK_IMPORTS = """From TxV Require Import Core.Base Core.Show Model.MultBase Gen.SrcMult Model.Mult.
+From TxV Require Model.Build.
+From TxV Require Import Model.PegSyntax Model.Peg Model.MultPeg.
+Open Scope string_scope.
+Definition attr_id (s : list N) : nat := match s with [97%N] => 0 | [98%N] => 1 | [99%N] => 2 | _ => 99 end.
+Fixpoint dec (s : list N) (acc : Z) : Z := match s with [] => acc | c :: r => dec r (acc * 10 + Z.of_N (c - 48))%Z end.
+Definition conv_tree (g : grammar) (input : list N) (t : tree) : sval :=
+  match t with
+  | T nid p len _ =>
+    match get_node g nid with
+    | Some nd =>
+      let txt := match PegSyntax.n_kind nd with KStr s _ => s | _ => firstn len (skipn p input) end in
+      if str_eqb (n_rule nd) [73;78;84]%N then SInt (dec txt 0)
+      else if str_eqb (n_rule nd) [83;84;82;73;78;71]%N then SStr (removelast (tl txt))
+      else SStr txt
+    | None => SNone
+    end
+  | NT _ _ => SNone
+  end.
+Definition show_sval (v : sval) : string :=
+  match v with SNone => "N" | SBool b => show_bool b | SInt z => "i" ++ show_Z z | SStr s => "s" ++ show_str s | SObj n => "o" ++ show_nat n end.
+Definition show_op (o : asgop) : string := match o with OpPlain => "=" | OpBool => "?" | OpStar => "*" | OpPlus => "+" end.
+Definition show_child (c : child) : string :=
+  (if c_sep c then "S" else "v") ++ (if c_named_sep c then "n" else "-") ++ show_sval (c_val c).
+Definition show_node (n : anode) : string :=
+  show_nat (n_attr n) ++ show_op (n_op n) ++ show_bool (n_has_sep n) ++ "(" ++ sjoin "," (map show_child (Mult.n_kids n)) ++ ")".
+(* structural check of the dumped rule node against the body, then per input: the Peg.v interpreter's parse and the
+   assignment nodes read off its result *)
+Definition show_link (g : grammar) (mm : list Build.ninfo) (c : config) (b : Mult.body) (nid : nat)
+           (runs : list (list ((nat * nat) * nat) * list N)) : string :=
+  show_bool (den g mm attr_id true b nid) ++ "#" ++
+  sjoin "#" (map (fun ti =>
+    match run g c (orc_of (fst ti)) false 200 (snd ti) with
+    | Parsed (RTree (NT _ (t :: _))) =>
+      match t with
+      | NT n _ => if Nat.eqb n nid then "P" ++ sjoin ";" (map show_node (top_nodes g mm attr_id (conv_tree g (snd ti)) (RTree t))) else "noobj"
+      | _ => "noobj"
+      end
+    | Parsed _ => "noobj"
+    | SyntaxErr _ => "syntax"
+    | Aborted _ => "abort"
+    end) runs)."""
+
+
+def top_body(b):
+    """textX wraps a rule that consists of a single assignment into a Sequence."""
+    return ["seq", [b]] if b[0] == "asg" else b
+
+
+def coq_link(c, o):
+    import pegdump
+    import mmdump
+    lk = o["link"]
+    runs = "; ".join("(%s, %s)" % (pegdump.coq_table(t), pegdump.coq_str(i)) for t, i in zip(lk["tables"], c["inputs"]))
+    # Model/Build.v is not imported in the case files (its constructor names clash with Model/MultBase.v): qualify them
+    mm = re.sub(r"\b(IAsgn|IRule|ITerm|IOther|OpPlain|OpOptional|OpList|OpOther|RCommon|RAbstract|RMatch|mkAttr|M1|MOpt|MStar|MPlus)\b",
+                r"Build.\1", mmdump.coq_mm(lk["mm"]))
+    return "show_link %s %s %s %s %d [%s]" % (pegdump.coq_grammar(lk["dump"]), mm, pegdump.coq_config(lk["dump"]),
+                                              coq_body(top_body(c["body"])), lk["model_nid"], runs)
+
+
+def impl_link(c, o):
+    """What show_link must print, computed from the implementation's parse trees."""
+    out = ["T"]
+    for run in o["runs"]:
+        if run.get("noobj"):
+            out.append("noobj")
+        elif run.get("trace") is None:
+            out.append("syntax" if run["err"] is not None and run["err"][0] == "TextXSyntaxError" else "?")
+        else:
+            out.append("P" + ";".join("%d%s%s(%s)" % (ATTRS.index(at), {"plain": "=", "optional": "?", "zeroormore": "*", "oneormore": "+"}[op],
+                                                       "T" if hs else "F",
+                                                       ",".join(("S" if k[0] else "v") + ("n" if k[1] else "-") + k[2] for k in kids))
+                                  for at, op, vs, kids, hs in run["trace"]))
+    return "#".join(out)
 
 
 def coq_sval(c):
@@ -373,10 +498,12 @@ def uncanon(s):
 
 
 def coq_trace(tr):
-    evs = []
-    for attr, op, vals in tr:
-        evs.append("(Ev %d %s [%s])" % (ATTRS.index(attr), COQ_OP[TREE_OP[op]], "; ".join(coq_sval(v) for v in vals)))
-    return "[" + "; ".join(evs) + "]"
+    """The assignment nodes of one parse tree as Coq `anode`s (children tagged separator / named `sep` / value)."""
+    ns = []
+    for attr, op, vals, kids, has_sep in tr:
+        ks = "; ".join("(Child %s %s %s)" % (core.coq_bool(k[0]), core.coq_bool(k[1]), coq_sval(k[2])) for k in kids)
+        ns.append("(ANode %d %s %s [%s])" % (ATTRS.index(attr), COQ_OP[TREE_OP[op]], core.coq_bool(has_sep), ks))
+    return "[" + "; ".join(ns) + "]"
 
 
 def case_attrs(c):
@@ -461,18 +588,14 @@ def oracle(c, o):
             bad.append(("input %r accepted but no parse tree was seen" % inp, []))
             continue
         # every value token of the input is matched by exactly one assignment, in input order
-        flat = [v for _, op, vs in tr for v in vs]
-        toks = []
-        for t in inp.split():
-            if t[0].isdigit():
-                toks.append("i%d" % int(t))
-            elif t[0] == "'":
-                toks.append("s" + t[1:-1])
+        flat = [v for _, op, vs, *_ in tr for v in vs]
+        toks = ["i%d" % int(t) if t[0].isdigit() else ("s" + t if t[0] == "v" else "s" + t[1:-1])
+                for t in re.findall(r"(?<![\w'])\d+\b|'[^']*'|\bv\d+\b", inp)]
         if flat != toks:
             bad.append(("input %r: assignments matched %r, the input's value tokens are %r" % (inp, flat, toks), tags))
         for a in case_attrs(c):
             name = ATTRS[a]
-            vals = [v for at, op, vs in tr if at == name for v in (["T"] if op == "optional" else vs)]
+            vals = [v for at, op, vs, *_ in tr if at == name for v in (["T"] if op == "optional" else vs)]
             got = run["vals"][name]
             m = mult[name]
             if maxcount(b, a) >= 2 or m in LIST_MULTS:
@@ -541,7 +664,8 @@ def model_matches(c, o, mv):
 def run_cases(chk, cases, tag, shard=120):
     chunks = [cases[i::core.NPROC] for i in range(core.NPROC)]
     chunks = [ch for ch in chunks if ch]
-    outs = core.run_impl_parallel("c02", [{"cases": [{"grammar": c["grammar"], "auto_init": c["auto_init"], "inputs": c["inputs"]} for c in ch]} for ch in chunks])
+    outs = core.run_impl_parallel("c02", [{"cases": [{"grammar": c["grammar"], "auto_init": c["auto_init"], "inputs": c["inputs"],
+                                                       "link": bool(c.get("link"))} for c in ch]} for ch in chunks])
     res = {}
     for ch, o in zip(chunks, outs):
         for c, x in zip(ch, o):
@@ -550,6 +674,34 @@ def run_cases(chk, cases, tag, shard=120):
     disagreements, failures = [], []
     if errs:
         disagreements.append({"case": "coq evaluation", "model": errs[:2]})
+    # link to the shared PEG core: the dumped rule node has the structure of the body (den), and the assignment nodes
+    # read off the Peg.v interpreter's result are those of the real parse tree
+    linked = [c for c in cases if c.get("link") and res[id(c)]["gerr"] is None and "dump" in (res[id(c)].get("link") or {})
+              and res[id(c)]["link"]["model_nid"] is not None]
+    for c in cases:
+        if c.get("link") and res[id(c)]["gerr"] is None and "unsupported" in (res[id(c)].get("link") or {}):
+            chk.stat("link: parser model outside the dumper's fragment")
+    lvals, lerrs = core.coq_eval(tag + "L", LINK_IMPORTS, [coq_link(c, res[id(c)]) for c in linked], shard=20)
+    if lerrs:
+        disagreements.append({"case": "coq evaluation (link)", "model": lerrs[:2]})
+    for c, lv in zip(linked, lvals):
+        if lv is None:
+            continue
+        want = impl_link(c, res[id(c)])
+        got = lv.split("#")
+        wl = want.split("#")
+        chk.stat("link: grammars checked")
+        bad = got[0] != "T" or len(got) != len(wl)
+        if not bad:
+            for gx, wx in zip(got[1:], wl[1:]):
+                if wx == "?" or gx == "abort":
+                    chk.stat("link: input skipped (%s)" % ("abort" if gx == "abort" else "timeout/crash on the implementation"))
+                    continue
+                chk.stat("link: inputs compared")
+                if gx != wx:
+                    bad = True
+        if bad:
+            disagreements.append({"case": c, "what": "link to the PEG core (den / nodes of the Peg.v parse)", "impl": want, "model": lv})
     for c, mv in zip(cases, vals):
         o = res[id(c)]
         b = c["body"]
@@ -563,12 +715,16 @@ def run_cases(chk, cases, tag, shard=120):
             chk.stat("input " + ("accepted" if run["ok"] else "rejected:" + str(run["err"][1] or run["err"][0])))
             if run["ok"] and run["trace"]:
                 first = {}
-                for at, op, vs in run["trace"]:
+                for at, op, vs, *_ in run["trace"]:
                     for v in (["T"] if op == "optional" else vs):
                         first.setdefault(at, v)
+                for ev in run["trace"]:
+                    if ev[4] and len(ev[2]) >= 2:
+                        nsep = len([1 for k in ev[3] if k[0]])
+                        chk.stat("list assignment with separator: " + ("all separators present" if nsep == len(ev[2]) - 1 else "some separator matched empty (no node)"))
                 if any(falsy(v) for v in first.values()):
                     chk.stat("accepted input whose first value of some attribute is falsy")
-                if any(len([1 for at, _, _ in run["trace"] if at == n]) >= 2 for n in first):
+                if any(len([1 for at, *_ in run["trace"] if at == n]) >= 2 for n in first):
                     chk.stat("accepted input with >=2 assignment events for one attribute")
         if o["gerr"] is not None and o["gerr"][0] == "Timeout":
             chk.stat("grammar compile timed out (skipped)")
@@ -626,24 +782,27 @@ def run(chk):
         for nodes in range(2, 6):
             for b in enum_bodies(nodes, 2):
                 if has_asg(b):
-                    small.append(mk_case(b, []))
+                    small.append(mk_case(b, [], link=False))
         six = [b for b in enum_bodies(6, 2) if has_asg(b)]
-        small += [mk_case(b, []) for b in chk.rng.split("six").sample(six, 2500)]
+        small += [mk_case(b, [], link=False) for b in chk.rng.split("six").sample(six, 2500)]
         chk.stat("enumerated small bodies", len(small))
         f2, d2 = run_cases(chk, small, "C02e", shard=400)
         failures += f2
         disagreements += d2
     chk.cov["rule"] = ("one-rule grammars whose body is a random AST (depth <= 3) of sequence, ordered choice, optional, * / + repetition (with and "
-                       "without separator) and unordered group (both spellings) over keywords, a rule reference and assignments to 1-3 attributes "
-                       "with = ?= *= += (INT / STRING / keyword right-hand sides), auto_init_attributes on/off; per grammar 3-4 inputs derived from "
+                       "without separator; separators: ',' /;/ and the nullable /,?/ /;*/, inputs include and omit them) and unordered group (both spellings) over keywords, a rule reference and assignments to 1-3 attributes "
+                       "with = ?= *= += (INT / STRING / keyword right-hand sides, and a match rule that is itself named `sep`), auto_init_attributes on/off; per grammar 3-4 inputs derived from "
                        "the body (values distinct, 0 and '' occurring as first values) plus 2 token-level mutations; the multiplicities, the "
                        "assignment events of the real parse tree, the attribute values or the error are compared with Model/Mult.v; "
+                       "for a sample of the grammars the live parser model is dumped and `den` (structure of the rule node = the body) and the "
+                       "assignment nodes of the Peg.v interpreter's parse are compared with the real parse tree; "
                        "non-trivial = some attribute is assigned at least twice in the body; distinct by (grammar, auto_init, inputs)"
                        + ("; thorough adds every body of 2-5 nodes over two attributes (=, one +=, ?, *, binary sequence/choice, ternary choice) and a sample of 2500 of the 6-node bodies, for the multiplicity table" if chk.thorough else ""))
     chk.assumptions += [
         "translator mult_tr.py (ast shape match of const.py, metamodel.py, lang.py visit_assignment/_update_attr_multiplicities, model.py assignment handler)",
         "the walk is modelled per attribute (set membership and the attribute's mult cell); independence of distinct attributes is validated by the correspondence",
-        "traces: `emits` is the grammar-structure semantics of one rule body; that Arpeggio parse trees of accepted inputs are such traces is validated per case by the weight check (cap2(weight) <= maxcount evaluated on the real trace)",
+        "traces: `emits` is the grammar-structure semantics of one rule body; results of the interpreter model Model/Peg.v (memoization off) are proved to be such traces (C02_parse_result_is_trace); that Model/Peg.v is the real interpreter is validated by correspondence (C19/C01, and here: nodes of the Peg.v parse vs the real parse tree, weight check on the real trace)",
+        "tools/pegdump.py and tools/mmdump.py dump the live parser model and metamodel faithfully (shared, fail closed)",
         "values are INT / STRING / bool; attribute defaults are computed by the harness from the documented rule and are falsy",
     ]
     decide(chk, failures, disagreements)
